@@ -2,7 +2,7 @@
 
 Oracle (implementation only): a random history of edits and evaluations is generated once
 and then replayed under several assignments of the cached flag to the cells names
-(quick: all-cached, all-uncached and 4 random ones; thorough: all 2^4) – the flag is forced
+(quick: all-cached, all-uncached and 4 random ones, every third history all 2^4; thorough: all 2^4) – the flag is forced
 right after every creation / formula change, flag changes inside the history are kept – and
 the sequence of evaluation results must be identical under every assignment; uncached cells
 hold no values; an uncached cells accepts unhashable arguments and is re-executed on every
@@ -30,11 +30,13 @@ CFG = {
 }
 # weights of the motif programs for the random histories: motif 8 assigns a value (uncached cells refuse that),
 # the last extended motif switches flags itself
-MOTIF_WEIGHTS = [1, 1, 4, 3, 1, 2, 1, 1, 0, 1, 1] + [1] * (len(S.MOTIFS) - 11) + [1, 1, 1, 1, 3, 0]
+# (the extended motif with inputs gets no weight either; the one with a cells shared by several callers a high one)
+MOTIF_WEIGHTS = [1, 1, 4, 3, 1, 2, 1, 1, 0, 1, 1] + [1] * (len(S.MOTIFS) - 11) + [1, 1, 1, 1, 3, 0, 0, 3]
 RULE = ("one history of 14-28 edits/evaluations replayed under k assignments of the cached flag to the cells names "
         "{f,g,h,k} (flag forced after each creation and formula change; `flip` ops switch a name's flag at that point of the history, "
         "half of them followed by an edit of a reference of a space that has such a cells; after every motif program: every cells name switched "
-        "in mid-history x every edit of an existing reference); non-trivial = the assignments produced at "
+        "in mid-history x every edit of an existing reference; a cells shared by several callers: one caller invalidated on its own, then an "
+        "edit through the shared cells); non-trivial = the assignments produced at "
         "least one evaluation through an uncached cells whose value later changed after an edit")
 
 
@@ -222,28 +224,68 @@ def enumerate_single_edits(ctx, out, stats, allassign):
                 live.apply(op)
             edits = [e for e in S.single_edits(live) if e[0] != "set_value"]   # inputs need a cached cells
             refed = [e for e in S.ref_edits_existing(live, edits) if e[0] != "del_mref"]
+            S.eval_everything(live)
+            shared = S.shared_callee_sequences(live, edits, with_names=True)
         finally:
             live.close()
             close_all()
         rng = ctx.rng("enum", mi)
+        # the motifs about FORMULAS OF SPACES (no flag of their own; they are C02's subject) run lighter in the quick
+        # tier: half the sample of single edits, four (seeded) of the edits of existing references in the flip family
+        light = ctx.tier == "quick" and any(o[0] == "set_param" and o[2] != 1 for o in motif)
+        if light:
+            refed = ctx.rng("enum-light", mi).sample(refed, min(len(refed), 4))
         enumerate_flips(ctx, out, stats, allassign, mi, motif, prefix, refed)
+        if len([f for f in out.failures if not f.get("key")]) >= 4:
+            return
+        enumerate_shared(ctx, out, stats, allassign, mi, prefix, shared)
         if len([f for f in out.failures if not f.get("key")]) >= 4:
             return
         if ctx.tier == "quick":
             # a seeded sample, plus every edit that changes what a sub space derives from
             always = [e for e in edits if e[0] in ("remove_bases", "del_cells") or (e[0] == "set_formula" and e[3][0] == 0)
                       or (e[0] == "add_bases" and len(e[2]) == 1)]
-            edits = rng.sample(edits, min(len(edits), 6))
+            edits = rng.sample(edits, min(len(edits), 3 if light else 6))
             edits += [e for e in always if e not in edits]
-        single = [a for a in allassign if sum(1 for x in a if not x) in (1, 2)]
+        single = [a for a in allassign if sum(1 for x in a if not x) == 1]
+        double = [a for a in allassign if sum(1 for x in a if not x) == 2]
         for e in edits:
             ops = prefix + [["evalall"], e, ["evalall"]]
-            # quick: nothing cached, and every one or two cells uncached
-            assignments = allassign[1:] if ctx.tier == "thorough" else [allassign[-1]] + single
+            # quick: nothing cached, every single cells uncached, and three (seeded) of the six pairs
+            assignments = allassign[1:] if ctx.tier == "thorough" else [allassign[-1]] + single + rng.sample(double, 3)
             stats["enumerated_scenarios"] += 1
             check_history(ops, out, stats, assignments)
             if len([f for f in out.failures if not f.get("key")]) >= 4:
                 return
+
+
+def enumerate_shared(ctx, out, stats, allassign, mi, prefix, shared, cap=12):
+    """a cells shared by several callers (struct_props.shared_callee_sequences, read off the dependency graph of the
+    all-cached model): everything evaluated; ONE caller is invalidated on its own (cleared, one element cleared, a
+    reference only it reads by attribute path changed); then an edit that must reach what the OTHER callers hold
+    through the shared cells (its formula, its name, its deletion, a reference it reads); everything evaluated again.
+    Assignments: the shared cells alone uncached, with one other name, nothing cached.  Quick tier: a seeded
+    sample of `cap` sequences per motif."""
+    rng = ctx.rng("shared", mi)
+    if ctx.tier != "thorough":
+        shared = rng.sample(shared, min(len(shared), cap))
+    for nu, seq in shared:
+        i = W.CELLS.index(nu) if nu in W.CELLS else None
+        if i is None:
+            continue
+
+        def asg(unc):
+            return tuple(k not in unc for k in range(len(W.CELLS)))
+        if ctx.tier == "thorough":
+            assignments = allassign[1:]
+        else:
+            j = rng.choice([k for k in range(len(W.CELLS)) if k != i])
+            assignments = [asg({i}), asg({i, j}), allassign[-1]]
+        ops = prefix + [["evalall"]] + [list(o) for o in seq] + [["evalall"]]
+        stats["enumerated_shared_callee_scenarios"] += 1
+        check_history(ops, out, stats, assignments)
+        if len([f for f in out.failures if not f.get("key")]) >= 4:
+            return
 
 
 def enumerate_flips(ctx, out, stats, allassign, mi, motif, prefix, refed):
@@ -269,8 +311,8 @@ def enumerate_flips(ctx, out, stats, allassign, mi, motif, prefix, refed):
                 assignments += [asg({i, j}), asg({j})]
             else:
                 assignments += [allassign[0]]       # everything cached, n switched OFF
-        # quick tier: every edit of an existing reference after the extended motifs, a seeded sample of 3 after the others
-        es = refed if ctx.tier == "thorough" or mi >= len(S.MOTIFS) else rng.sample(refed, min(len(refed), 3))
+        # quick tier: a seeded sample of the edits of existing references: 6 after the extended motifs, 3 after the others
+        es = refed if ctx.tier == "thorough" else rng.sample(refed, min(len(refed), 6 if mi >= len(S.MOTIFS) else 3))
         for e in es:
             variants = [[], [["evalall"]]]
             if ctx.tier != "thorough":
@@ -308,7 +350,7 @@ def unhashable(out, stats):
 
 def run(ctx, out):
     stats = collections.Counter()
-    n = ctx.n(60, 600)
+    n = ctx.n(48, 600)
     allassign = list(itertools.product([True, False], repeat=len(W.CELLS)))
     nontrivial, samples = 0, []
     hists = S.load_corpus("C09")
@@ -320,7 +362,7 @@ def run(ctx, out):
         # number of corpus files
         j = i - ncorpus + 1
         rng = ctx.rng("assign", j)
-        if ctx.tier == "thorough" or i < ncorpus or j % 2 == 0:
+        if ctx.tier == "thorough" or i < ncorpus or j % 3 == 0:
             assignments = allassign[1:]
         else:
             assignments = [allassign[-1]] + rng.sample(allassign[1:-1], 4)
